@@ -7,7 +7,7 @@ import glob, json, os, re, subprocess, sys
 NOTES = {
     'C11-13': 'not reported (outside C11\'s quantifier, DESIGN 8.3 ninth wave)',
     'C20-13': 'not reported (the monitor asked for the right number, DESIGN 8.3 ninth wave)',
-    'C02-16': 'not reported (DESIGN 8.3 tenth wave)',
+    'C02-16': 'neutralised by fix 984f5f8 (DESIGN 8.3 tenth wave)',
     'C06-16': 'not reported (DESIGN 8.3 tenth wave)',
     'C16-16': 'not reported (DESIGN 8.3 tenth wave)',
     'C17-15': 'not reported (DESIGN 8.3 tenth wave)',
